@@ -546,6 +546,8 @@ mod share2;
 pub mod sync;
 pub mod task;
 mod timers;
+#[cfg(uazu_stakker_verif)]
+mod verif_std;
 
 #[cfg(test)]
 mod test;
